@@ -258,7 +258,11 @@ macro_rules! shared_impl {
             internal.recv_count = 0;
             internal.send_count = 0;
             internal.terminate_signals();
-            internal.queue.clear();
+            // Buffered messages are destroyed after the lock is released: a
+            // destructor may use the channel (a message can own a handle of it).
+            let queue = core::mem::take(&mut internal.queue);
+            drop(internal);
+            drop(queue);
             Ok(())
         }
         /// Returns whether the channel is closed on both side of send and
